@@ -81,3 +81,10 @@ Definition cds_from_datetime (ud sod us : Z) : cds :=
   let unix_days := ud in
   let ms_of_day := sod * 1000 + us / 1000 in
   {| cdays := convert_unix_days_to_ccsds_days unix_days; cms := ms_of_day |}.
+
+(* a history: stamp += td_1; stamp += td_2; ... (the object is mutated in place and returned) *)
+Fixpoint cds_add_all (t : cds) (tds : list (Z * Z * Z)) : res cds :=
+  match tds with
+  | [] => Ok t
+  | (d, s, u) :: r => do t' <- cds_add t d s u; cds_add_all t' r
+  end.
